@@ -324,6 +324,87 @@ Lemma node_iswiss fixed fresh n : wf_iswiss n ->
 Proof. intros W. pose proof (iswiss_rt n W) as H. node_tac2 H. Qed.
 
 (* ---------------------------------------------------------------------------------------------- *)
+(* SwissKnife, IntConverter, Converter (formula and expression texts are opaque strings)             *)
+
+Lemma leaf_slope : leaf (p_enum slope_tbl) slope_name (fun x => x) tt_ok.
+Proof. apply leaf_enum. intros []; reflexivity. Qed.
+Ltac leaf_tac ::=
+  first [ exact leaf_string | exact leaf_nodeid | exact leaf_bool | exact leaf_i64 | exact leaf_u64
+        | exact leaf_hex64 | exact leaf_f64 | exact leaf_vis | exact leaf_access | exact leaf_caching
+        | exact leaf_irep | exact leaf_frep | exact leaf_dnot | exact leaf_sign | exact leaf_endian
+        | exact leaf_slope ].
+
+Ltac named_step L W :=
+  eapply bind_step; [ eapply (parse_while_r_named _ _ _ _ _ _ _ L); [exact W | solve [hn_tac]] | cbn beta ].
+
+Definition wf_fswiss (s : fswiss Src) : Prop :=
+  wf_eb (fk_eb s) /\ Forall (fun q => wf_f (snd q)) (fk_consts s) /\ oall wf_i64 (fk_dprec s).
+Lemma fswiss_rt s : wf_fswiss s ->
+  match r_fswiss s with Elem _ attrs ch => p_fswiss attrs ch | _ => fail [] end = Ok (n_fswiss s, []).
+Proof.
+  intros (W1 & W2 & W3). unfold r_fswiss, p_fswiss, r_float_tail. rewrite with_attr_rt.
+  eb_step W1. step.
+  named_step leaf_nodeid (Forall_snd_tt (fk_vars s)).
+  named_step leaf_f64 W2.
+  named_step leaf_string (Forall_snd_tt (fk_exprs s)).
+  eapply bind_step; [apply (leaf_string T_Formula [] (fk_formula s)); exact Logic.I|]. cbn beta.
+  step. step. step. step. rewrite !n_named_id. reflexivity.
+Qed.
+
+Definition wf_iconv (s : iconv Src) : Prop :=
+  wf_eb (ic_eb s) /\ Forall (fun q => wf_i64 (snd q)) (ic_consts s).
+Lemma iconv_rt s : wf_iconv s ->
+  match r_iconv s with Elem _ attrs ch => p_iconv attrs ch | _ => fail [] end = Ok (n_iconv s, []).
+Proof.
+  intros (W1 & W2). unfold r_iconv, p_iconv. rewrite with_attr_rt.
+  eb_step W1. step.
+  named_step leaf_nodeid (Forall_snd_tt (ic_vars s)).
+  named_step leaf_i64 W2.
+  named_step leaf_string (Forall_snd_tt (ic_exprs s)).
+  eapply bind_step; [apply (leaf_string T_FormulaTo [] (ic_to s)); exact Logic.I|]. cbn beta.
+  eapply bind_step; [apply (leaf_string T_FormulaFrom [] (ic_from s)); exact Logic.I|]. cbn beta.
+  eapply bind_step; [apply (leaf_nodeid T_pValue [] (ic_pvalue s)); exact Logic.I|]. cbn beta.
+  step. step. step. rewrite !n_named_id. reflexivity.
+Qed.
+
+Definition wf_fconv (s : fconv Src) : Prop :=
+  wf_eb (fc_eb s) /\ Forall (fun q => wf_f (snd q)) (fc_consts s) /\ oall wf_i64 (fc_dprec s).
+Lemma fconv_rt s : wf_fconv s ->
+  match r_fconv s with Elem _ attrs ch => p_fconv attrs ch | _ => fail [] end = Ok (n_fconv s, []).
+Proof.
+  intros (W1 & W2 & W3). unfold r_fconv, p_fconv. rewrite with_attr_rt.
+  eb_step W1. step.
+  named_step leaf_nodeid (Forall_snd_tt (fc_vars s)).
+  named_step leaf_f64 W2.
+  named_step leaf_string (Forall_snd_tt (fc_exprs s)).
+  eapply bind_step; [apply (leaf_string T_FormulaTo [] (fc_to s)); exact Logic.I|]. cbn beta.
+  eapply bind_step; [apply (leaf_string T_FormulaFrom [] (fc_from s)); exact Logic.I|]. cbn beta.
+  eapply bind_step; [apply (leaf_nodeid T_pValue [] (fc_pvalue s)); exact Logic.I|]. cbn beta.
+  step. step. step. step. step. step. rewrite !n_named_id. reflexivity.
+Qed.
+
+Ltac node_tac3 H :=
+  cbn [render]; unfold r_fswiss, r_iconv, r_fconv in *;
+  match goal with
+  | |- parse_node ?fx ?fr (Elem ?t ?a ?c) = _ => change (parse_node fx fr (Elem t a c)) with (parse_leaf fx fr t a c)
+  end;
+  unfold parse_leaf;
+  repeat match goal with
+         | |- context [str_eqb ?x ?y] => let b := eval vm_compute in (str_eqb x y) in change (str_eqb x y) with b
+         end;
+  cbn [orb]; cbv iota; rewrite H; reflexivity.
+
+Lemma node_fswiss fixed fresh n : wf_fswiss n ->
+  parse_node fixed fresh (render (SnSwissKnife n)) = Ok (pres1 fresh (NdSwissKnife (n_fswiss n))).
+Proof. intros W. pose proof (fswiss_rt n W) as H. node_tac3 H. Qed.
+Lemma node_iconv fixed fresh n : wf_iconv n ->
+  parse_node fixed fresh (render (SnIntConverter n)) = Ok (pres1 fresh (NdIntConverter (n_iconv n))).
+Proof. intros W. pose proof (iconv_rt n W) as H. node_tac3 H. Qed.
+Lemma node_fconv fixed fresh n : wf_fconv n ->
+  parse_node fixed fresh (render (SnConverter n)) = Ok (pres1 fresh (NdConverter (n_fconv n))).
+Proof. intros W. pose proof (fconv_rt n W) as H. node_tac3 H. Qed.
+
+(* ---------------------------------------------------------------------------------------------- *)
 (* Enumeration and its entries                                                                      *)
 
 Definition wf_enumentry (e : enumentry Src) : Prop :=
@@ -487,6 +568,7 @@ Fixpoint wf_node (n : snode) : Prop :=
   | SnFloatReg x => wf_floatreg x | SnString x => wf_stringn x | SnStringReg x => wf_regnode x
   | SnRegister x => wf_regnode x | SnIntSwissKnife x => wf_iswiss x | SnPort x => wf_port x
   | SnStructReg s => wf_struct s /\ Forall (fun e => limited s e = false) (st_entries s)
+  | SnConverter x => wf_fconv x | SnIntConverter x => wf_iconv x | SnSwissKnife x => wf_fswiss x
   | SnGroup l => (fix all (l : list snode) : Prop := match l with [] => True | x :: r => wf_node x /\ all r end) l
   end.
 
@@ -515,6 +597,9 @@ Fixpoint expect (fresh : Z) (n : snode) : presult :=
   | SnStructReg s =>
       let twins := map (fun e => n_masked (twin_src s e)) (st_entries s) in
       mkPres (rb_nodes (st_rb s)) (map NdMaskedIntReg twins) (masked_invs twins) fresh
+  | SnConverter x => pres1 fresh (NdConverter (n_fconv x))
+  | SnIntConverter x => pres1 fresh (NdIntConverter (n_iconv x))
+  | SnSwissKnife x => pres1 fresh (NdSwissKnife (n_fswiss x))
   | SnGroup l =>
       (fix go (l : list snode) (acc : presult) : presult :=
          match l with [] => acc | x :: r => go r (pres_app acc (expect (pr_fresh acc) x)) end) l (mkPres [] [] [] fresh)
@@ -529,7 +614,7 @@ Proof. destruct n; eexists _, _, _; reflexivity. Qed.
 
 Lemma roundtrip_all : forall n fresh, wf_node n -> parse_node true fresh (render n) = Ok (expect fresh n).
 Proof.
-  fix IH 1. intros n fresh. destruct n as [x|x|x|x|x|x|x|x|x|x|x|x|x|x|x|s|l]; cbn [wf_node expect]; intros W.
+  fix IH 1. intros n fresh. destruct n as [x|x|x|x|x|x|x|x|x|x|x|x|x|x|x|s|x|x|x|l]; cbn [wf_node expect]; intros W.
   - apply node_plain; exact W.
   - apply node_category; exact W.
   - apply node_integer; exact W.
@@ -546,6 +631,9 @@ Proof.
   - apply node_iswiss; exact W.
   - apply node_port; exact W.
   - destruct W as [W1 W2]. apply (node_struct_twins fresh s W1 W2).
+  - apply node_fconv; exact W.
+  - apply node_iconv; exact W.
+  - apply node_fswiss; exact W.
   - fold wf_all in W. fold expect_go. cbn [render]. rewrite group_unfold.
     generalize (mkPres [] [] [] fresh) as acc. revert W.
     induction l as [|x r IHr]; intros W acc; [reflexivity|].
@@ -569,6 +657,8 @@ Fixpoint declared (n : snode) : list (str * Z) :=
   | SnRegister x => [(a_name (rn_attr x), 13)] | SnIntSwissKnife x => [(a_name (sk_attr x), 17)]
   | SnPort x => [(a_name (po_attr x), 18)]
   | SnStructReg s => map (fun e => (a_name (se_attr e), 4)) (st_entries s)
+  | SnConverter x => [(a_name (fc_attr x), 14)] | SnIntConverter x => [(a_name (ic_attr x), 15)]
+  | SnSwissKnife x => [(a_name (fk_attr x), 16)]
   | SnGroup l => (fix all (l : list snode) := match l with [] => [] | x :: r => declared x ++ all r end) l
   end.
 Definition declared_all := fix all (l : list snode) := match l with [] => [] | x :: r => declared x ++ all r end.
@@ -577,7 +667,7 @@ Definition name_kind (d : node_data) : str * Z := (nd_name d, kind_code d).
 
 Lemma names_all : forall n fresh, map name_kind (pr_ret (expect fresh n)) = declared n.
 Proof.
-  fix IH 1. intros n fresh. destruct n as [x|x|x|x|x|x|x|x|x|x|x|x|x|x|x|s|l]; try reflexivity.
+  fix IH 1. intros n fresh. destruct n as [x|x|x|x|x|x|x|x|x|x|x|x|x|x|x|s|x|x|x|l]; try reflexivity.
   - cbn [expect pr_ret declared]. rewrite !map_map. apply map_ext. intros e. reflexivity.
   - cbn [expect declared]. fold expect_go. fold declared_all.
     assert (G : forall l acc, map name_kind (pr_ret (expect_go l acc)) = map name_kind (pr_ret acc) ++ declared_all l).
@@ -692,4 +782,48 @@ Proof.
   - repeat constructor; try exact Logic.I; try (vm_compute; congruence).
     exists 77, []. split; reflexivity.
   - vm_compute. repeat constructor; cbn; intuition discriminate.
+Qed.
+
+(* ---------------------------------------------------------------------------------------------- *)
+(* the formula-carrying kinds, stated on their own                                                  *)
+
+Lemma roundtrip_formula_kinds fixed fresh :
+  (forall n, wf_fconv n -> parse_node fixed fresh (render (SnConverter n)) = Ok (pres1 fresh (NdConverter (n_fconv n)))) /\
+  (forall n, wf_iconv n -> parse_node fixed fresh (render (SnIntConverter n)) = Ok (pres1 fresh (NdIntConverter (n_iconv n)))) /\
+  (forall n, wf_fswiss n -> parse_node fixed fresh (render (SnSwissKnife n)) = Ok (pres1 fresh (NdSwissKnife (n_fswiss n)))) /\
+  (forall n, wf_iswiss n -> parse_node fixed fresh (render (SnIntSwissKnife n)) = Ok (pres1 fresh (NdIntSwissKnife (n_iswiss n)))).
+Proof.
+  repeat split; intros n W;
+    [apply node_fconv | apply node_iconv | apply node_fswiss | apply node_iswiss]; exact W.
+Qed.
+
+Lemma names_formula_kinds :
+  (forall n, name_kind (NdConverter (n_fconv n)) = (a_name (fc_attr n), 14) /\
+             fc_pvalue (n_fconv n) = fc_pvalue n /\ fc_to (n_fconv n) = fc_to n /\ fc_from (n_fconv n) = fc_from n /\
+             fc_vars (n_fconv n) = fc_vars n /\ fc_consts (n_fconv n) = fc_consts n /\ fc_exprs (n_fconv n) = fc_exprs n) /\
+  (forall n, name_kind (NdIntConverter (n_iconv n)) = (a_name (ic_attr n), 15) /\
+             ic_pvalue (n_iconv n) = ic_pvalue n /\ ic_to (n_iconv n) = ic_to n /\ ic_from (n_iconv n) = ic_from n /\
+             ic_vars (n_iconv n) = ic_vars n /\ ic_exprs (n_iconv n) = ic_exprs n) /\
+  (forall n, name_kind (NdSwissKnife (n_fswiss n)) = (a_name (fk_attr n), 16) /\
+             fk_formula (n_fswiss n) = fk_formula n /\ fk_vars (n_fswiss n) = fk_vars n /\
+             fk_consts (n_fswiss n) = fk_consts n /\ fk_exprs (n_fswiss n) = fk_exprs n) /\
+  (forall n, name_kind (NdIntSwissKnife (n_iswiss n)) = (a_name (sk_attr n), 17) /\
+             sk_formula (n_iswiss n) = sk_formula n /\ sk_vars (n_iswiss n) = sk_vars n /\ sk_exprs (n_iswiss n) = sk_exprs n).
+Proof. repeat split. Qed.
+
+(* non-vacuity: a Converter with two variables, a float constant, an expression, Slope and IsLinear *)
+Definition example_converter : fconv Src :=
+  mkFconv Src (mkAttr Src [67] None None None) eb0 (Some (BL true true)) [([65], [82; 49]); ([66], [82; 50])]
+          [([75], FvText [49; 46; 53])] [([69], [65; 43; 49])] [65; 42; 66] [65; 47; 66] [86] (Some [117]) None
+          (Some DnFixed) (Some (IL (FmHex false true) 10)) (Some SlVarying) (Some (BL false true)).
+Lemma formula_example :
+  wf_fconv example_converter /\
+  exists p, parse_node true 0 (render (SnConverter example_converter)) = Ok p /\
+    map (fun d => match d with
+                  | NdConverter c => (fc_pvalue c, slope_ord (fc_slope c), fc_linear c, fc_dprec c, List.length (fc_vars c))
+                  | _ => ([], -1, false, -1, O) end) (pr_ret p) = [([86], 2, true, 10, 2%nat)].
+Proof.
+  split.
+  - repeat split; try exact Logic.I; repeat constructor; vm_compute; congruence.
+  - eexists. split; [vm_compute; reflexivity | reflexivity].
 Qed.
